@@ -124,6 +124,12 @@ def check_one(ctx, res, seed, st, samples, distinct):
                             viol.append(data)
         if documented and len(samples) < 6:
             samples.append(dict(type=ident, comments=ncom, text=text[len(tsmini.NOTE):][:240]))
+    # O0: documentation never decides whether an item compiles: a documented definition that rustc turns away while its twin
+    # without documentation is accepted
+    for d in res["defs"]:
+        if d.get("twin_kind") == "docs" and d["twin_of"] in res["rejected"]:
+            viol.append(dict(kind="property-violated", what="a documented definition does not compile while the same definition without documentation does",
+                             definition=d["twin_of"], rustc=res["rejected"][d["twin_of"]], undocumented_twin=C.to_rust(d), seed=seed))
     # O1: the twin without documentation has the same declaration
     for d in res["defs"]:
         if d.get("twin_kind") != "docs" or d["twin_of"] not in first_q or d["ident"] not in first_q:
